@@ -502,9 +502,9 @@ fn tetris_lib(g: &Graph, listing: &[usize], views: u64, awaiting: bool) -> tet::
                     lay.places.push(Placeable::Instance(Ptr::new(Instance { inst_name: format!("p{}", k), cell: ptrs[*d].clone(), loc: (k as isize, 0isize).into(), reflect_horiz: false, reflect_vert: false })));
                 } else {
                     let inner = Ptr::new(tet::array::Array { name: format!("a{}", k), unit: tet::array::Arrayable::Instance(ptrs[*d].clone()), count: 1 + k % 2, sep: tet::placement::Separation::default() });
-                    // nested one, two or three deep; one definition may serve two array instances
+                    // nested one to four deep; one definition may serve two array instances
                     let mut arr = inner;
-                    for lvl in 0..[0usize, 1, 2, 1][(k + i) % 4] {
+                    for lvl in 0..[0usize, 1, 2, 3][((k + i) / 2) % 4] {
                         arr = Ptr::new(tet::array::Array { name: format!("aa{}_{}", k, lvl), unit: tet::array::Arrayable::Array(arr), count: 1, sep: tet::placement::Separation::default() });
                     }
                     lay.places.push(Placeable::Array(Ptr::new(tet::array::ArrayInstance { name: format!("ai{}", k), array: arr.clone(), loc: (k as isize, 2isize).into(), reflect_vert: false, reflect_horiz: false })));
